@@ -5,7 +5,7 @@
 //@target src/e57_reader.rs
 //@check reads_are_history_independent serves=C17,C09,C03,C05 fn=E57Reader::{pointcloud_raw,pointcloud_simple,blob,xml} note="BOUNDED: one file with two point clouds (5000 points with sub-byte, 11-bit and 61-bit integer records plus doubles; 33 points) and a 3000-byte blob; 6 interleavings of partly consumed raw / simple iterators, blob reads and full reads; compared with a fresh reader per operation"
 //@check corrupted_pages_never_yield_other_data serves=C07,C08,C17 fn=PagedReader::{read_page,read},E57Reader::{new,validate_crc,pointcloud_raw} note="BOUNDED: the same file with one bit flipped at 5 positions (payload start/middle/end, first and last checksum byte) of EVERY page, with the stored checksum byte-reversed, and with an altered payload re-sealed in the wrong byte order; E57Reader::new, raw reads of both clouds and validate_crc: validate_crc must fail, every other operation fails or returns exactly the result of the intact file; a failed read followed by a read of another cloud still returns the intact result; no panic"
-//@check unusual_packetisation_decodes serves=C03,C08,C09,C12 fn=QueueReader::{advance,parse_byte_streams,pop_point},ByteStreamReadBuffer::{append,extract},BitPack::unpack_* note="BOUNDED: one cloud of 257 points (f64, f32, 10-bit scaled integer, 0-bit integer, 61-bit integer) encoded by an INDEPENDENT encoder in this test (own bit packer, packets, pages, CRC-32C) in 7 packetisations: one packet; 1 byte per stream per packet; chunks of 3/5/7/11 bytes (values straddle packets); one stream ahead of the others (empty streams in packets); index packet first; ignored packets of 4, 1000 and 2044 bytes in between (straddling pages); all of it behind a 1016-byte ignored packet; raw read-back compared"
+//@check unusual_packetisation_decodes serves=C03,C05,C08,C09,C12 fn=PointCloudReaderSimple::next,QueueReader::{advance,parse_byte_streams,pop_point},ByteStreamReadBuffer::{append,extract},BitPack::unpack_* note="BOUNDED: one cloud of 257 points (f64, f32, 10-bit scaled integer, 0-bit integer, 61-bit integer) encoded by an INDEPENDENT encoder in this test (own bit packer, packets, pages, CRC-32C) in 7 packetisations: one packet; 1 byte per stream per packet; chunks of 3/5/7/11 bytes (values straddle packets); one stream ahead of the others (empty streams in packets); index packet first; ignored packets of 4, 1000 and 2044 bytes in between (straddling pages); all of it behind a 1016-byte ignored packet; raw read-back compared; the simple iterator must yield the same number of points without an error item"
 //@check crafted_packets_terminate serves=C09,C08 fn=QueueReader::advance,PointCloudReaderRaw::next,PointCloudReaderSimple::next note="BOUNDED: 4 crafted files with valid page checksums (ignored / index packet whose declared length runs past the end of the file; data packet whose stream sizes exceed the packet; section that ends in the middle of a packet header): every iterator step returns within 20 s (watchdog thread), with an error or the end of the iteration, never a panic"
 //@module
     use crate::{E57Writer, Point, RawValues, Record, RecordDataType, RecordName, RecordValue};
@@ -400,6 +400,18 @@
             for (i, (a, b)) in got.iter().zip(points.iter()).enumerate() {
                 assert!(a == b, "packetisation \"{name}\": point {i} is {a:?}, written {b:?}");
             }
+            // C05: the simple iterator yields as many points as the raw one, without an error item, whatever the packetisation
+            // (packets that complete no point, index / ignored packets in between), and its x coordinate is the stored double
+            let mut n_simple = 0usize;
+            for p in r.pointcloud_simple(&pc).unwrap() {
+                let p = p.unwrap_or_else(|e| panic!("well-formed file, packetisation \"{name}\": simple iterator failed after {n_simple} points: {e}"));
+                match p.cartesian {
+                    crate::CartesianCoordinate::Valid { x, .. } => assert!(RecordValue::Double(x) == points[n_simple][0], "packetisation \"{name}\": simple point {n_simple} x = {x}"),
+                    ref other => panic!("packetisation \"{name}\": simple point {n_simple} has no valid Cartesian coordinate: {other:?}"),
+                }
+                n_simple += 1;
+            }
+            assert_eq!(n_simple, N, "number of points from the simple iterator, packetisation \"{name}\"");
         }
     }
 
